@@ -1,7 +1,12 @@
 package main
 
 import (
+	"bytes"
 	"fmt"
+
+	"github.com/cockroachdb/pebble/vfs"
+	"github.com/jamf/regatta/regattapb"
+	"github.com/jamf/regatta/storage/table/fsm"
 )
 
 func init() {
@@ -90,6 +95,42 @@ func runFsmScenarios(name string, args []string) error {
 		}
 	}
 	sum.Evaluations = n
+	if name == "c01" {
+		// a plain-map oracle on data the random histories never reach: a range delete over more than one page
+		// (fsm.maxRangeSize) of pairs, with and without previous pairs
+		for _, prev := range []bool{true, false} {
+			f, _, err := newRealFSM(vfs.NewMem(), fsm.RecoveryTypeSnapshot)
+			if err != nil {
+				return err
+			}
+			const nbig = 6
+			for i := 0; i < nbig; i++ {
+				if _, _, err := f.apply([]gEntry{{Idx: uint64(i + 1), Cmd: gCmd{Kind: regattapb.Command_PUT, K: []byte(fmt.Sprintf("big%d", i)), V: bytes.Repeat([]byte{byte('a' + i)}, 1100*1024)}}}); err != nil {
+					return err
+				}
+			}
+			res, _, err := f.apply([]gEntry{{Idx: nbig + 1, Cmd: gCmd{Kind: regattapb.Command_DELETE, K: []byte("big"), End: []byte("bih"), Prev: prev, Count: true}}})
+			if err != nil {
+				return err
+			}
+			sum.Evaluations++
+			in := map[string]any{"scenario": "range delete over 6 pairs of 1.1 MiB", "prev_kv": prev, "count": true}
+			var del *regattapb.ResponseOp_DeleteRange
+			if len(res) == 1 && len(res[0].Resps) == 1 {
+				del = res[0].Resps[0].GetResponseDeleteRange()
+			}
+			left, _ := f.read(gRange{Key: []byte{0}, End: []byte{0}, CountOnly: true})
+			switch {
+			case del == nil:
+				sum.violate(n, "a range delete returns no delete response", in, fmt.Sprint(res))
+			case left.Count != 0:
+				sum.violate(n, "a range delete leaves pairs of the range behind", in, fmt.Sprintf("%d pairs left", left.Count))
+			case del.Deleted != nbig || (prev && len(del.PrevKvs) != nbig):
+				sum.violate(n, "the response of a range delete is cut to the first page of the range", in, fmt.Sprintf("deleted=%d prev_kvs=%d, the plain map deletes %d pairs", del.Deleted, len(del.PrevKvs), nbig))
+			}
+			f.close()
+		}
+	}
 	if len(sum.Samples) == 0 {
 		sum.Samples = append(sum.Samples, cf.Descr[0])
 	}
